@@ -92,6 +92,8 @@ def judgeSign (inp : Json) : List String :=
   let why : List String := []
   let why := if jstr inp "expect" == "complete" && sigs.length != nsign
              then why ++ [s!"only {sigs.length} of {nsign} signers completed"] else why
+  let why := if jstr inp "expect" == "none" && !sigs.isEmpty
+             then why ++ [s!"{sigs.length} signers returned a signature although a signer used retired key material"] else why
   let valid (s : Json) : Bool :=
     if kind == "frost-taproot" then bip340Verify (jhex inp "xonly") msg (jhex s "sig")
     else match jpt inp "pub", jpt s "R" with
@@ -104,6 +106,72 @@ def judgeSign (inp : Json) : List String :=
   let why := if !allEq bodies then why ++ ["signers returned different signatures"] else why
   why
 
+def partyKey (j : Json) : String := (Json.mkObj [("id", jget j "id"), ("share", jget j "share"), ("pub", jget j "pub"),
+  ("xonly", jget j "xonly"), ("table", jget j "table"), ("chain", jget j "chain")]).compress
+
+/-- splits of a list into (old part, new part), both non-empty -/
+def properSplits (l : List α) : List (List α × List α) :=
+  let rec go : List α → List (List α × List α)
+    | [] => [([], [])]
+    | x :: xs => (go xs).flatMap fun (a, b) => [(x :: a, b), (a, x :: b)]
+  (go l).filter fun (a, b) => !a.isEmpty && !b.isEmpty
+
+/-- C08 conditions: before / after a refresh -/
+def judgeRefresh (inp : Json) : List String :=
+  let kind := jstr inp "kind"
+  let t := jnat inp "t"
+  let taproot := kind == "frost-taproot"
+  let before := (jarr inp "before").map (parseParty taproot)
+  let after := (jarr inp "parties").map (parseParty taproot)
+  let why := judgeKeygen inp        -- the new material satisfies the key-generation consistency conditions
+  let why := if (jarr inp "before").map partyKey != (jarr inp "before_reread").map partyKey
+             then why ++ ["the pre-refresh key material objects were modified by the refresh"] else why
+  if after.isEmpty || before.isEmpty then why else
+  let why := if (before.headD default).pub != (after.headD default).pub then why ++ ["the group public key changed"] else why
+  -- with threshold 0 every share IS the secret key (the refresh polynomial is the zero polynomial): it cannot change
+  let why := if (t > 0 || kind == "doerner") && (before.zip after).any (fun (b, a) => b.share == a.share)
+             then why ++ ["a party's secret share did not change"] else why
+  if kind == "doerner" then why else
+  -- combining shares of different epochs does not reconstruct the key
+  let pub := ((after.headD default).pub).getD .inf
+  let pairs := before.zip after
+  let bad := (choose (t + 1) pairs).flatMap fun S =>
+    (properSplits S).filter fun (olds, news) =>
+      let pts := olds.map (fun (b, _) => (idScalar b.id, b.share)) ++ news.map (fun (_, a) => (idScalar a.id, a.share))
+      mul (reconstruct pts) G == pub
+  if !bad.isEmpty then why ++ [s!"{bad.length} mixtures of old and new shares reconstruct the key"] else why
+
+/-- BIP-32 CKDpub: (child key, child chain code) from (parent key, chain code, index) -/
+def ckdPub (K : Pt) (chain : Bytes) (i : Nat) : Option (Pt × Bytes) :=
+  let I := Sha2.hmacSha512 chain (Secp.encode K ++ be32 i)
+  let il := unbe (I.take 32)
+  if il ≥ q || il == 0 then none else
+  match add K (mul il G) with
+  | .inf => none
+  | P => some (P, I.drop 32)
+
+/-- C14 conditions on derived material -/
+def judgeDerive (inp : Json) : List String :=
+  let kind := jstr inp "kind"
+  let taproot := kind == "frost-taproot"
+  let parent := (jarr inp "parent").map (parseParty taproot)
+  let child := (jarr inp "parties").map (parseParty taproot)
+  let idx := jnat inp "index"
+  if parent.isEmpty then ["no parent material"] else
+  let K := ((parent.headD default).pub).getD .inf
+  let chain := (parent.headD default).chain
+  match ckdPub K chain idx with
+  | none =>
+    -- the standard declares the index unusable: deriving must fail
+    if jstr inp "derive_error" == "" then ["derivation succeeded although BIP-32 declares this index invalid"] else []
+  | some (ck, cc) =>
+    if jstr inp "derive_error" != "" then ["derivation failed: " ++ jstr inp "derive_error"] else
+    let why := judgeKeygen inp ++ judgeChain inp
+    let why := if child.any (fun p => p.chain != cc) then why ++ ["derived chain code differs from BIP-32 CKDpub"] else why
+    let expectPub := if taproot then (match ck with | .aff x y => if y % 2 == 0 then Pt.aff x y else Secp.neg (.aff x y) | .inf => Pt.inf) else ck
+    let why := if child.any (fun p => p.pub != some expectPub) then why ++ ["derived public key differs from BIP-32 CKDpub"] else why
+    why
+
 def verdict (why : List String) : Json :=
   if why.isEmpty then jobj [("ok", true)] else jobj [("ok", false), ("why", Json.arr (why.map Json.str).toArray)]
 
@@ -115,6 +183,8 @@ def handle (op : String) (inp : Json) : Json :=
             ++ (if checks.contains "chain" then judgeChain inp else [])
     verdict why
   | "sign" => verdict (judgeSign inp)
+  | "refresh" => verdict (judgeRefresh inp)
+  | "derive" => verdict (judgeDerive inp)
   | _ => jobj [("error", "unknown op")]
 
 end Mps.Drv.Sessions
